@@ -44,6 +44,8 @@ def literal_return(db, rec_q, names):
 def variant_invariants(db, choice, this_name="this"):
     inv = []
     for key, rec in choice.items():
+        if isinstance(key, str) and key.startswith("static:"):
+            continue
         v = literal_return(db, rec, T.CAP_NAMES)
         if v is not None:
             inv.append(("cmp", "==", T.var("cap(%s)" % this_name, "st"), T.c(v)))
@@ -53,7 +55,48 @@ def variant_invariants(db, choice, this_name="this"):
     return inv
 
 
+def _norm_static(txt):
+    """(text without leading negations, polarity)"""
+    pol = True
+    t = txt.strip()
+    while t.startswith("!") or t.startswith("not "):
+        t = t[1:] if t.startswith("!") else t[4:]
+        t = t.strip()
+        pol = not pol
+    while t.startswith("(") and t.endswith(")") and t.count("(") == t.count(")") == 1:
+        t = t[1:-1].strip()
+    return t, pol
+
+
 def build_variants(db, func, static_conds, max_depth=3, oblige_hook=None):
+    """the configuration variants of _build_variants_rec, each split further on the truth of the function's own
+    `if constexpr` conditions that no configuration decides (type traits of the template arguments): the contract holds for
+    every instantiation, so each arm is a program of its own. At most two distinct conditions are split (independent traits
+    assumed); more stay unknown branches."""
+    out = []
+    for choice, prog, ctx, b in _build_variants_rec(db, func, static_conds, max_depth, oblige_hook):
+        texts = set()
+        for nd in P.flatten(prog):
+            if nd[0] == "branch" and isinstance(nd[1], tuple) and nd[1][0] == "unk" and str(nd[1][1]).startswith("static:") \
+                    and nd[4].get("depth", 0) == 0:
+                texts.add(_norm_static(str(nd[1][1])[7:])[0])
+        texts = sorted(texts)
+        if not texts or len(texts) > 2:
+            out.append((choice, prog, ctx, b))
+            continue
+        for combo in itertools.product((True, False), repeat=len(texts)):
+            b2 = P.Builder(db, max_depth=max_depth, static_conds=static_conds, oblige_hook=oblige_hook)
+            b2.choice = dict(choice)
+            b2.static_exact = dict(zip(texts, combo))
+            prog2, ctx2 = b2.build(func)
+            ch = dict(choice)
+            for t, v in zip(texts, combo):
+                ch["static:" + t] = "%s is %s" % (t, "true" if v else "false")
+            out.append((ch, prog2, ctx2, b2))
+    return out
+
+
+def _build_variants_rec(db, func, static_conds, max_depth=3, oblige_hook=None):
     """Programs of func for every configuration variant (choice among alternative base/layout records)."""
     b = P.Builder(db, max_depth=max_depth, static_conds=static_conds, oblige_hook=oblige_hook)
     prog, ctx = b.build(func)
